@@ -32,7 +32,19 @@ def run_one(mid, props, tier):
             env.pop("PYTHONPATH", None)
             out = subprocess.run([os.path.join(VERIF, ".venv/bin/python"), "-W", "ignore", "-m", "vf.main", p, "--tier", tier], cwd=VERIF, env=env, capture_output=True, text=True)
             lines = [l for l in out.stdout.splitlines() if l.startswith(("VIOLATION", "UNDECIDED", "TOOL-ERROR"))]
-            res[p] = {"exit": out.returncode, "lines": lines[:4], "n_violation_lines": len([l for l in lines if l.startswith("VIOLATION")])}
+            sigs = []
+            rdir = os.path.join(tmp, "out", "replays")
+            if os.path.isdir(rdir):
+                for fn in sorted(os.listdir(rdir)):
+                    try:
+                        with open(os.path.join(rdir, fn)) as f:
+                            rp = json.load(f)
+                        if rp.get("property") == p:
+                            sigs.append(rp.get("signature", "")[:160])
+                    except Exception:
+                        pass
+            by_proof = [s for s in sigs if s.startswith("P:")]
+            res[p] = {"exit": out.returncode, "lines": lines[:4], "n_violation_lines": len([l for l in lines if l.startswith("VIOLATION")]), "failed_obligations": by_proof[:6], "driver_violations": [s for s in sigs if not s.startswith("P:")][:4]}
         return mid, res
     finally:
         subprocess.run(["git", "-C", "/repo", "worktree", "remove", "--force", os.path.join(tmp, "repo")], capture_output=True)
@@ -68,8 +80,10 @@ def main():
             print(f"{mid:10} {status:8} " + " ".join(f"{p}:exit={v['exit']}" for p, v in res.items() if isinstance(v, dict) and "exit" in v), flush=True)
             for p, v in res.items():
                 if isinstance(v, dict):
-                    for l in v.get("lines", [])[:2]:
-                        print("     ", l[:200])
+                    for l in v.get("failed_obligations", [])[:2]:
+                        print("      proof:", l[:200])
+                    for l in v.get("driver_violations", [])[:1]:
+                        print("      driver:", l[:200])
     with open(os.path.join(VERIF, "selftest", "last_seeded_run.json"), "w") as f:
         json.dump(results, f, indent=1)
 
